@@ -3,7 +3,9 @@
 Two parts, merged into one context:
   * hash functions (this directory): exhaustive enumeration of length x content family x function x seed x placement x alignment x
     surrounding fill on exact-size heap blocks under AddressSanitizer, plus all 256^3 (thorough: 256^4) contents of one length,
-    plus guard-page placements in a forked child, plus std::hash of equal fixed strings across storage layouts; oracle = the
+    plus guard-page placements in a forked child, plus bands of lengths around powers of two (2^13 .. 2^16, thorough .. 2^22) and
+    keys of 2 GiB / 4 GiB (lengths 2^31 + d, 2^32 + d in a sparse anonymous mapping between inaccessible pages),
+    plus std::hash of equal fixed strings across storage layouts; oracle = the
     independently written refs/C14_murmur_ref.hpp (itself checked against the SMHasher verification values).
   * fixed-string coherence: the C01 explorer (error kinds 'C14:'), every reachable raw state of every layout.
 """
@@ -55,6 +57,35 @@ def _lens(lmax):
     return ["--lmax", str(lmax)]
 
 
+# BAND: every length 2^k-8 .. 2^k+16 (every tail residue on both sides of the power of two) with all dimensions of the LONG part
+BAND_K = {"quick": (13, 18), "thorough": (15, 22)}   # below these the contiguous LONG range (0..4200 / 0..16500) contains the power of two
+BAND_D = (-8, 16)
+# HUGE: lengths 2^k + d at the limits of the signed / unsigned 32-bit integer types
+HUGE_K = (31, 32)
+HUGE_D = {"quick": {31: [13], 32: [0, 13]}, "thorough": {31: list(range(-8, 17)), 32: list(range(-8, 17))}}
+HUGE_A = {"quick": [1], "thorough": list(range(8))}
+
+
+def _band_jobs(tier, tag="c14-O1-asan", primary=True):
+    jobs = []
+    k0, k1 = BAND_K[tier]
+    for k in range(k0, k1 + 1):
+        n = 1 if k < 19 else 2 if k < 21 else 2 ** (k - 19)
+        for sh in range(n):
+            jobs.append((tag, ["--part", "long", "--band", "1", "--lmin", str(2 ** k + BAND_D[0]), "--lmax", str(2 ** k + BAND_D[1]),
+                               "--lmain", "39", "--shard", str(sh), str(n)], primary))
+    return jobs
+
+
+def _huge_jobs(tier):
+    lens = ["%d:%d" % (k, d) for k in HUGE_K for d in HUGE_D[tier][k]]
+    # the lengths are dealt out in ascending order: with (number of lengths + 1) // 2 processes each one gets one length around 2^31 and
+    # one around 2^32 (a process pays about 2 s for faulting in the page tables of its two mappings, whatever it evaluates)
+    n = (len(lens) + 1) // 2
+    common = ["--part", "huge", "--hlens", ",".join(lens), "--aoffs", ",".join(map(str, HUGE_A[tier])), "--two-seeds", "0" if tier == "quick" else "1"]
+    return [("c14-O2-nosan", common + ["--shard", str(k), str(n)], True) for k in range(n)]
+
+
 def plan(tier):
     """list of (build tag, argv, primary): 'primary' jobs define evaluations / distinct_nontrivial, the others re-run a sub-space on
     another build (other optimisation level / compiler) and are counted separately."""
@@ -73,6 +104,8 @@ def plan(tier):
         jobs.append(("c14-O1-asan", ["--part", "fswide"], True))
         for k in range(2):
             jobs.append(("c14-O1-asan", ["--part", "long", "--lmax", "4200", "--lmain", "39", "--shard", str(k), "2"], True))
+        jobs += _huge_jobs(tier)
+        jobs += _band_jobs(tier)
         return jobs
     # thorough (most informative parts first: a deadline then cuts the big exhaustive-content sweeps, not the structured part)
     jobs.append(("c14-O1-asan", ["--part", "guard", "--lmax", "71", "--wide-seeds", "1"], True))
@@ -82,6 +115,8 @@ def plan(tier):
     n = 14
     for k in range(n):
         jobs.append(("c14-O1-asan", ["--part", "long", "--lmax", "16500", "--lmain", "71", "--wide-seeds", "1", "--shard", str(k), str(n)], True))
+    jobs += _band_jobs(tier)
+    jobs += _huge_jobs(tier)
     n = 28
     for k in range(n):
         jobs.append(("c14-O1-asan", ["--part", "main", "--lmax", "71", "--pairs", "1", "--wide-seeds", "1", "--shard", str(k), str(n)], True))
@@ -107,9 +142,12 @@ def _sort_key(v):
     # the shortest / first case of every signature first (main part before guard pages before other builds), so that the
     # counterexample that gets reported does not depend on scheduling
     head = a[0] if a else ""
-    rank = {"--one": 0, "--long-one": 0, "--guard-one": 1, "--fs-one": 2, "--fs-long-one": 2, "--fsw-one": 2}.get(head, 3)
+    rank = {"--one": 0, "--long-one": 0, "--huge-one": 0, "--guard-one": 1, "--fs-one": 2, "--fs-long-one": 2, "--fsw-one": 2}.get(head, 3)
     if head == "--long-one":
         size = 2 * int(a[5])
+    elif head == "--huge-one":
+        size = 2 * int(a[4])
+        a = a[:3] + ["" if a[3] == "G" else "A%02d" % int(a[3][1:])] + a[4:]   # the guard-page placement first, then offsets in numeric order
     elif head == "--fs-long-one":
         size = 2 * int(a[1])
     elif head == "--fsw-one":
@@ -175,10 +213,10 @@ def run(ctx):
             if c not in ctx.caps:
                 ctx.cap(c)
         if primary:
-            own_samples.setdefault(args[1], []).extend(sub.samples)
+            own_samples.setdefault("band" if "--band" in args else args[1], []).extend(sub.samples)
         ctx.viols += sub.viols
     # a few samples of every part
-    for part in ("main", "long", "full", "guard", "fs", "fslong", "fswide"):
+    for part in ("main", "long", "band", "huge", "full", "guard", "fs", "fslong", "fswide"):
         for s in own_samples.get(part, [])[:3 if part == "main" else 1]:
             ctx.sample(s)
 
@@ -205,7 +243,13 @@ def run(ctx):
         "01 02 03..; FF FE FD..; ALL 256 one-byte and ALL 65536 two-byte keys} with v in {00,01,7F,80,FF} x seed {0,1,7FFFFFFF,80000000,FFFFFFFF,c70f6907,2^63,2^64-1%s} (truncated to 32 bit and "
         "de-duplicated for murmur2_x86) x placement {key ends at the last byte of an exact-size malloc block; 8 readable bytes behind the key} x start alignment 0..7 (key at offset a of a 16-aligned block) "
         "x fill of all non-key bytes {00,FF}. LONG: EVERY length 0..%d x EVERY offset 0..15 of a 16-aligned exact-size malloc block x seeds {0,c70f6907,all-ones%s} x 4 key patterns "
-        "(32-bit word counter (w+1)*2654435761 so that all 4- and 8-byte blocks differ; FF FE FD..; 00..00 80; 00 FF..FF). FULL: %s. GUARD: every length x seed x {01 02 03.., FF FF..} with the key ending / starting exactly at an inaccessible page, plus the EMPTY key described by (nullptr, 0) and by (pointer into an inaccessible page, 0) for every seed, in a forked child. "
+        "(32-bit word counter (w+1)*2654435761 so that all 4- and 8-byte blocks differ; FF FE FD..; 00..00 80; 00 FF..FF). "
+        "BAND: the LONG grid (16 offsets, 4 patterns, seeds {0,c70f6907,all-ones}) for EVERY length 2^k-8 .. 2^k+16, k = %d..%d (every tail residue on both sides of each power of two above the contiguous LONG range). "
+        "HUGE (lengths at the limits of the signed / unsigned 32-bit integer types; g++ -O2 build without sanitizer): length 2^k+d, k in {31,32}, d in {%s} x functions x seeds {c70f6907%s} x placements {key ends at an inaccessible page "
+        "(start address %% 8 = -length %% 8)%s} in an anonymous MAP_NORESERVE mapping between two inaccessible pages, executed in a forked child (a fault is attributed to the call); key = sparse content "
+        "(byte i = top byte of (i+1)*0x9E3779B97F4A7C15 in the 96-byte windows around 0, 2^12, 2^13 .. 2^33, L/2+17 and L, 00 elsewhere; FF in front of / behind the key); hash_bytes and murmur2_x64 (and murmur2_x86 for lengths < 2^31) "
+        "are compared with the reference computed over a private second mapping, murmur2_x86 for lengths >= 2^31 (no reference value: MurmurHash2 takes an int length) must return ONE value in all placements and must not fault. "
+        "FULL: %s. GUARD: every length x seed x {01 02 03.., FF FF..} with the key ending / starting exactly at an inaccessible page, plus the EMPTY key described by (nullptr, 0) and by (pointer into an inaccessible page, 0) for every seed, in a forked child. "
         "Every call is compared with refs/C14_murmur_ref.hpp (byte-wise little-endian MurmurHash2 / MurmurHash64A; checked against SMHasher's 27864C1E / 1F0D3804 at start) and followed by a "
         "look at AddressSanitizer's error flag. FS: all strings of length <= 3 over {00,'a',80,FF} built 4 ways in 7 fixed-string types (capacity 3,16,55,255,256; packed, size-field, strlen layouts) must "
         "have one std::hash value; FSLONG: equal strings of EVERY length 0..400 in xbasic_fixed_string<char,400,buffer> objects constructed at offsets 0..7 of a byte array "
@@ -220,14 +264,23 @@ def run(ctx):
            "" if quick else ", 2^k and ~2^k for k = 0..63",
            4200 if quick else 16500,
            "" if quick else " and the other 5 base seeds",
+           BAND_K[ctx.tier][0], BAND_K[ctx.tier][1],
+           "13 for 2^31; 0, 13 for 2^32" if quick else "-8 .. 16",
+           "" if quick else ", all-ones",
+           "; key at offset 1 of the first page behind an inaccessible page" if quick else "; key at offset 0..7 of the first page behind an inaccessible page",
            "all 2^24 three-byte keys x seeds {c70f6907, all-ones} x alignment 0..7, end-of-block placement, fill FF" if quick else
            "all 2^24 three-byte keys with every MAIN dimension (8 seeds); all 2^32 four-byte keys x seeds {c70f6907, all-ones} x offsets {0,1} on an -O2 build without sanitizer (values only); "
            "MAIN (length <= 39), LONG (length <= 4200), GUARD, FS and FSLONG repeated on g++ -O2, g++ -O0 and clang++ -O1 AddressSanitizer builds"))
     ctx.assumptions += [
         "x86-64 little-endian Linux, sizeof(size_t) == 8: hash_bytes is the MurmurHash64A branch; the 32-bit-platform branches of xhash.hpp are not reachable here",
         "reference = refs/C14_murmur_ref.hpp, trusted after reproducing the published SMHasher verification values of MurmurHash2 and MurmurHash64A",
-        "lengths above %d are not enumerated (and >= 2^32, where murmur2_x86 truncates the length); lengths above %d only with the 4 LONG patterns at alignments 0..15 (end-of-block placement); "
-        "contents outside the stated families are not enumerated for lengths > %d" % (4200 if quick else 16500, 39 if quick else 71, 3 if quick else 4),
+        "lengths above %d are enumerated only in the bands 2^k-8 .. 2^k+16 (k = %d..%d) and, with one sparse content and %d placements, at 2^31+d and 2^32+d (d in {%s}); no other length above 2^%d+16; "
+        "lengths above %d only with the 4 LONG patterns at alignments 0..15 (end-of-block placement); contents outside the stated families are not enumerated for lengths > %d"
+        % (4200 if quick else 16500, BAND_K[ctx.tier][0], BAND_K[ctx.tier][1], 1 + len(HUGE_A[ctx.tier]), "13 / 0, 13" if quick else "-8 .. 16", BAND_K[ctx.tier][1],
+           39 if quick else 71, 3 if quick else 4),
+        "HUGE part: needs a 64-bit Linux that grants two anonymous MAP_NORESERVE mappings of 4 GiB + 2 pages (untouched pages are the shared zero page; about 200 KiB become resident, 16 MiB of page tables); if the mapping is "
+        "refused the part ends with a cap (exhaustive: false), not with an error. murmur2_x86 narrows the length to 32 bit (as reference MurmurHash2's int length does); for lengths >= 2^31 only purity and the absence of faults are judged. "
+        "Over-reads there are judged by the inaccessible pages only (no AddressSanitizer)",
         "over-reads are judged by AddressSanitizer (g++ instrumentation, recover mode, byte-exact right red zone of malloc blocks; to the left only at offset 0) and by guard pages; "
         "a read of fewer than 8 bytes to the left of a key that starts at offset 1..7 is only visible if it changes the value",
         "the unaligned / type-punned uint32 load of murmur2_x86 (xhash.hpp:60) is not judged (UBSan alignment is off by design)",
